@@ -89,6 +89,7 @@ func groundStringFacts(terms []*T) []*T {
 		for _, k := range sortedKeys(c.slens) {
 			s := c.slens[k]
 			add(Ge(Slen(s), IntC(0)))
+			add(Le(Slen(s), IntC(1<<48)))
 			if lit, ok := IsStrLit(s); ok {
 				add(Eq(Slen(s), IntC(int64(len(lit)))))
 				if len(lit) <= 64 {
